@@ -25,6 +25,13 @@ Script ==
                               \* two by-value copies of cell (1,1), callbacks and properties included
                               [op |-> "rowaddcell", r |-> 2, from |-> [kind |-> "cell", r |-> 1, c |-> 1]],
                               [op |-> "rowaddcell", r |-> 2, from |-> [kind |-> "cell", r |-> 1, c |-> 1]] >>
+    \* one row in two tables (joined in the order 1, 2), a cell added after that
+    [] Shape = "shared" -> << [op |-> "newtable", via |-> "core"],
+                              [op |-> "newrow", how |-> "new", t |-> 1, cap |-> 0],
+                              [op |-> "rowadd", r |-> 1, item |-> It("a")],
+                              [op |-> "addrow", t |-> 1, r |-> 1],
+                              [op |-> "addrow", t |-> 2, r |-> 1],
+                              [op |-> "rowadd", r |-> 1, item |-> It("late")] >>
     [] Shape = "full"   -> << [op |-> "headers", t |-> 1, items |-> <<It("h"), It("i")>>],
                               [op |-> "rowitems", t |-> 1, items |-> <<It("a"), It("b")>>],
                               [op |-> "sep", t |-> 1],
@@ -36,8 +43,14 @@ Targets == RegTargets
 CellRefs(rows, maxc) ==
   UNION {{[kind |-> "cell", r |-> r, c |-> c] : c \in 1..Min2(maxc, Len(st.row[r].cells))} : r \in rows}
 
+TblIds == DOMAIN st.tbl
 OwnersNow ==
   IF Shape = "copy" THEN CellRefs(DOMAIN st.row, 2)
+  ELSE IF Shape = "shared"
+  THEN {[kind |-> "table", t |-> t] : t \in TblIds}
+       \cup {[kind |-> "column", t |-> t, n |-> 1] : t \in {x \in TblIds : st.tbl[x].ncols >= 1}}
+       \cup {[kind |-> "row", r |-> r] : r \in DOMAIN st.row}
+       \cup CellRefs(DOMAIN st.row, 1)
   ELSE
   {[kind |-> "table", t |-> 1], [kind |-> "foreign"]}
   \cup {[kind |-> "column", t |-> 1, n |-> n] : n \in 0..Min2(T.ncols, 1)}
@@ -50,10 +63,10 @@ NPasses == Cardinality({i \in DOMAIN hist : hist[i].op = "rendercbs"})
 Ops ==
   (IF bi <= Len(Script) THEN {Script[bi]} ELSE {})
   \cup (IF Len(st.cb) < MaxCbs
-        THEN {[op |-> "regcb", t |-> 1, owner |-> o, time |-> tm, target |-> tg, fails |-> 0] :
+        THEN {[op |-> "regcb", t |-> (IF "t" \in DOMAIN o THEN o.t ELSE 1), owner |-> o, time |-> tm, target |-> tg, fails |-> 0] :
                 o \in OwnersNow, tm \in Times, tg \in Targets}
         ELSE {})
-  \cup (IF NPasses < MaxPasses /\ Len(st.cb) > 0 THEN {[op |-> "rendercbs", t |-> 1]} ELSE {})
+  \cup (IF NPasses < MaxPasses /\ Len(st.cb) > 0 THEN {[op |-> "rendercbs", t |-> t] : t \in TblIds} ELSE {})
 
 NewT == [op |-> "newtable", via |-> "core"]
 Init == /\ st = Apply(InitState, NewT, <<>>) /\ hist = <<NewT>> /\ bi = 1
